@@ -382,6 +382,8 @@ CHECKS = [
           rule="C12 scrypt driver under ASan"),
     Check("drv_c03_mac", run=reuse(c03.run_mac), strategy=c03.strat_mac, examples=(2500, 15000), shards=(16, 16), variant="asan",
           rule="C03 MAC driver under ASan"),
+    Check("drv_c19_threads", run=reuse(c19.run_threads), strategy=c19.strat_threads, examples=(64, 600), shards=(8, 8), variant="asan",
+          rule="the multi-threaded workloads of C19 (2..16 threads, native code without the GIL) on the ASan build"),
     Check("drv_c07", run=reuse(c07.run_v15), strategy=c07.strat_v15, examples=(800, 5000), shards=(16, 16), variant="asan",
           rule="C07 PKCS#1 v1.5 decoder driver under ASan"),
 ]
